@@ -87,6 +87,11 @@ func main() {
 				}
 			}
 		}
+	case "debug-maprange":
+		if len(os.Args) > 2 {
+			repoRoot = os.Args[2]
+		}
+		debugMapRange(loadResolve("", true))
 	case "debug-sign":
 		if len(os.Args) > 2 {
 			repoRoot = os.Args[2]
